@@ -295,6 +295,7 @@ class Harness(object):
         self.in_query = False
         self.quiescent_points = []
         self.race_exercised = False
+        self.in_push_hook = 0
         self.wfr_ctx = None
         self.wfr_results = []             # (responses returned by wait_for_responses, stream ids the messages were sent on)
         self.foreign_drops = []           # (timed-out request, stream, token of the foreign handler it removed)
@@ -439,8 +440,9 @@ class Harness(object):
             finally:
                 h.cb_stack.pop()
                 h.pm = saved
-            if tok in h.raising and isinstance(resp, ConnectionShutdown):
-                raise RuntimeError('handler %r raises when told about the connection failure' % (tok,))
+            if tok in h.raising and isinstance(resp, (ConnectionShutdown, ErrorMessage)):
+                # (a user errback that throws: also when it is handed the server's error message, e.g. the ProtocolException)
+                raise RuntimeError('handler %r raises when told about the failure' % (tok,))
         cb.tok = tok
         return cb
 
@@ -485,9 +487,11 @@ class Harness(object):
         self.tokens.setdefault(tok, {})['id'] = i
         self.checkpoint()
         self.send_hook = None
+        self.in_push_hook += 1
         try:
             self.nested(sh['nested_push'])
         finally:
+            self.in_push_hook -= 1
             self.send_hook = sh
 
     def _on_inflight_read(self, conn):
@@ -785,6 +789,7 @@ class Harness(object):
             return
         rid = self.held[r]
         self.next_token, self.next_nested_cb, self.next_nested_send = r, a.get('in_cb'), a.get('after_check')
+        self.next_nested_push = a.get('at_push')
         try:
             self.conn.send_msg(QueryMessage(query='SELECT 1', consistency_level=1), rid, lambda resp: None)
         except (ConnectionShutdown, ConnectionBusy):
